@@ -76,14 +76,14 @@ def run_engines(chk, prop, W, tier, seed, chk_mask, n_random=None, batches_per_d
             _, ec, fh, tb = v
             sch = engines.scenarios_header(sc, os.path.join(W, '%s_%s_scall.h' % (c.name, eng)))
             dv = 1     # one reference for both engines: where LargeMicroStep needs another one, that is a C03 finding
-            nat = engines.native_run(eng, W, '%s_%s' % (c.name, eng), fh, tb, sch, variant=1, dvariant=dv, mode=mode, chk=chk_mask)
+            nat = engines.native_run(eng, W, '%s_%s' % (c.name, eng), fh, tb, sch, variant=1, dvariant=dv, mode=mode, chk=chk_mask, prop_beh=prop)
             tv_total += nat['scenarios'] * 8
             chk.samples.append({'doc': c.name, 'engine': eng, 'kind': 'native run of all scenarios x 8 pseudo-random throw patterns (auxiliary, not solver-decided)',
                                 'scenarios': nat['scenarios'], 'passed': nat['ok'], 'shape': c.describe()[:160]}) if len(chk.samples) < 40 else None
             if not nat['ok']:
                 fails = sorted(set(f.split(': ', 1)[-1] for f in nat['fails']))
-                mine = [f for f in fails if prop in f.split(':')[0]]
-                if mine or mode == 2:
+                mine = fails      # only the assertion groups selected by chk_mask are compiled in: every failure belongs to this property
+                if mine:
                     path = chk.write_replay('%s_%s_native' % (c.name, eng), {'kind': 'engine-native', 'engine': eng, 'doc': c.name, 'scxml': c.to_xml(), 'mode': mode,
                                                                           'chk': chk_mask, 'dvariant': dv, 'failed': fails[:10], 'native': nat['out'][-1500:]})
                     chk.violation('%s engine, %s [%s]: %s (reproduced on the g++-built libuscxml)' % (eng, c.name, c.describe()[:140], (mine or fails)[:3]), path)
@@ -109,7 +109,7 @@ def run_engines(chk, prop, W, tier, seed, chk_mask, n_random=None, batches_per_d
     def job(j):
         c, ec, fh, tb, bh, sub, b, wit = j
         defs = ['SCENARIOS="%s"' % bh]
-        return engines.step_query(ec, fh, mode, variant=1, dvariant=1, witness=wit, timeout=tmo, chk=chk_mask, prop_beh='C03', extra_defs=defs, unwind=15)
+        return engines.step_query(ec, fh, mode, variant=1, dvariant=1, witness=wit, timeout=tmo, chk=chk_mask, prop_beh=prop, extra_defs=defs, unwind=15)
     res = pmap(job, jobs)
     table = {(j[0].name, j[6], j[7]): r for j, r in zip(jobs, res)}
     total = inconclusive = 0
@@ -135,7 +135,7 @@ def run_engines(chk, prop, W, tier, seed, chk_mask, n_random=None, batches_per_d
         tagged = [d for d in props if re.match(r'^C\d\d', d)]
         other = [d for d in props if d not in tagged]
         # reproduce natively on exactly this batch
-        nat = engines.native_run('fast', W, '%s_fast_b%d' % (c.name, b), fh, tb, bh, variant=1, dvariant=1, mode=mode, chk=chk_mask)
+        nat = engines.native_run('fast', W, '%s_fast_b%d' % (c.name, b), fh, tb, bh, variant=1, dvariant=1, mode=mode, chk=chk_mask, prop_beh=prop)
         chk.replays_native += 1
         if not nat['ok'] and nat['fails']:
             path = chk.write_replay('%s_fast_b%d' % (c.name, b), {'kind': 'engine-native', 'engine': 'fast', 'doc': c.name, 'scxml': c.to_xml(), 'mode': mode, 'chk': chk_mask,
